@@ -1280,6 +1280,9 @@ func main() {
 		r.Violate(s, v.What, v.Case, v.Obs, v.Exp)
 		r.P.Violations[s].Count = v.Count
 	}
+	if r.Replay == "" && *only == "" && *famFlag == "" {
+		runConcurrentMatcher(r) // two requests in flight on routes with yielding custom constraints (small; this process)
+	}
 	famKeys := make([]string, 0, len(fam))
 	for k := range fam {
 		famKeys = append(famKeys, k)
